@@ -35,7 +35,13 @@ type C08Case struct {
 	Initial []string    `json:"initial"` // initial content per file ("" + Exists=false: absent)
 	Exists  []bool      `json:"exists"`
 	Actions []C08Action `json:"actions"`
+	// Config: the workspace holds a luahelper.json with IgnoreFileNameVarFlag = 1 (documented: an
+	// undefined global named like a Lua file of the workspace is not reported) and the same checks on
+	Config bool `json:"config,omitempty"`
 }
+
+// c08Config is that configuration file: checks 1, 2, 3, 4, 6 only, as with the client flags.
+const c08Config = `{"BaseDir":"./","ShowWarnFlag":1,"IgnoreFileNameVarFlag":1,"IgnoreErrorTypes":[5,7,8,9,10,11,12,13,14,15,16,17,18,19,20,21,22,23,24,25]}`
 
 func init() { register("C08", checkC08) }
 
@@ -63,7 +69,10 @@ func c08Content(t *rapid.T, i, nfiles int) string {
 	n := rapid.IntRange(1, 3).Draw(t, "nfrag")
 	for k := 0; k < n; k++ {
 		j := rapid.IntRange(0, nfiles-1).Draw(t, "other")
-		switch rapid.IntRange(0, 7).Draw(t, "frag") {
+		switch rapid.IntRange(0, 8).Draw(t, "frag") {
+		case 8:
+			// reads an undefined global spelled like another file's base name
+			fmt.Fprintf(&b, "print(f%d.value)\n", j)
 		case 7:
 			if j != i {
 				fmt.Fprintf(&b, "dofile(\"%s\")\n", c08Name(j)) // refers to another file by its path with suffix
@@ -111,6 +120,7 @@ func genC08(t *rapid.T) C08Case {
 		c.Initial = append(c.Initial, txt)
 		c.Exists = append(c.Exists, exists[i])
 	}
+	c.Config = rapid.IntRange(0, 3).Draw(t, "fileNameVarConfig") == 0
 	n := rapid.IntRange(1, 15).Draw(t, "nactions")
 	for s := 0; s < n; s++ {
 		i := rapid.IntRange(0, nf-1).Draw(t, "file")
@@ -248,6 +258,11 @@ func checkC08(c C08Case, env *Env) *Violation {
 	}
 	// keep the workspace directory non-empty and stable
 	req.Files = append(req.Files, proto.File{Path: "keep.lua", Data: []byte("local keep = 1\nprint(keep)\n")})
+	if c.Config {
+		req.Files = append(req.Files, proto.File{Path: "luahelper.json", Data: []byte(c08Config)})
+		req.InitOptions = harness.J(harness.AllOn())
+		env.Stats.Class("with-file-name-variable-config")
+	}
 	type checkpoint struct {
 		step   int // last step of the action
 		disk   []string
@@ -345,6 +360,10 @@ func checkC08(c C08Case, env *Env) *Violation {
 			}
 		}
 		r.Files = append(r.Files, proto.File{Path: "keep.lua", Data: []byte("local keep = 1\nprint(keep)\n")})
+		if c.Config {
+			r.Files = append(r.Files, proto.File{Path: "luahelper.json", Data: []byte(c08Config)})
+			r.InitOptions = harness.J(harness.AllOn())
+		}
 		fo := env.Exec(r)
 		if fo.Crash() {
 			return nil, violf("crash", "fresh server died: %s", fo.Describe())
